@@ -566,6 +566,11 @@ func oneCase(c *fw.Ctx, r *rng.R, dir, id, class, text string, cs *gen.Case) boo
 		}
 	}
 	for _, ch := range channels {
+		if ch.name == "raw" && len(raw) > 100_000 {
+			// a single command-line argument cannot be that long (the operating system's limit)
+			c.Count("raw_channel_skipped_argument_too_long", 1)
+			continue
+		}
 		pr, err := runProcF(c, ch.stdin, ch.stdinFile, ch.args...)
 		if err != nil {
 			panic(err)
